@@ -16,10 +16,11 @@ def bitlen(x):
 class Decl:
     """variants: [(name, value, literal_text, display or None, [alt values])]"""
 
-    def __init__(self, tag, variants, bits=None):
+    def __init__(self, tag, variants, bits=None, layout=0):
         self.tag = tag
         self.variants = variants
         self.bits = bits
+        self.layout = layout
 
     def expected_bits(self):
         return self.bits if self.bits is not None else bitlen(max(v[1] for v in self.variants))
@@ -34,16 +35,27 @@ class Decl:
         lines.append("#[repr(u8)]")
         lines.append(f"pub enum {name} {{")
         for v in self.variants:
-            if v[3] is not None:
-                lines.append(f"    #[display({char_lit(v[3])})]")
-            if v[4]:
-                lines.append("    #[alt(" + ", ".join(f"{a:#b}" for a in v[4]) + ")]")
+            # attribute layout: self.layout selects how the alternatives are spread over #[alt] attributes
+            # and where #[display] sits (0: display first, one #[alt(a, b)]; 1: one #[alt] per alternative,
+            # display last; 2: #[alt(a)] #[display] #[alt(b)]; 3: one #[alt(a, b,)] with trailing comma, display last)
+            lay = self.layout
+            disp = [f"    #[display({char_lit(v[3])})]"] if v[3] is not None else []
+            alts = list(v[4])
+            fmt = lambda xs: "    #[alt(" + ", ".join(f"{a:#b}" if (a + lay) % 2 else str(a) for a in xs) + ("," if lay == 3 else "") + ")]"
+            if lay == 0 or not alts:
+                lines += disp + ([fmt(alts)] if alts else [])
+            elif lay == 1:
+                lines += [fmt([a]) for a in alts] + disp
+            elif lay == 2:
+                lines += [fmt(alts[:1])] + disp + ([fmt(alts[1:])] if alts[1:] else [])
+            else:
+                lines += [fmt(alts)] + disp
             lines.append(f"    {v[0]} = {v[2]},")
         lines.append("}")
         return lines
 
     def describe(self):
-        return {"tag": self.tag, "bits": self.bits, "variants": [[v[0], v[2], v[3], v[4]] for v in self.variants]}
+        return {"tag": self.tag, "bits": self.bits, "layout": self.layout, "variants": [[v[0], v[2], v[3], v[4]] for v in self.variants]}
 
 
 def char_lit(c):
@@ -102,7 +114,11 @@ def grammar(tier, seed):
                 for i in range(nv):
                     alts = a0 if i == 0 else (a1 if i == nv - 1 else [])
                     vs.append((nm[i], prim[i], f"{prim[i]:#05b}", disp[i], list(alts)))
-                ds.append(Decl(f"G4 primaries={prim} alts0={a0} alts_last={a1} display={disp}", vs, bits=3 if k % 2 else None))
+                ds.append(Decl(f"G4 primaries={prim} alts0={a0} alts_last={a1} display={disp} layout={k % 4}", vs, bits=3 if k % 2 else None, layout=k % 4))
+    # G4b: every attribute layout with two alternatives on the first and on the last variant, and amino-like many alternatives
+    for lay in range(4):
+        ds.append(Decl(f"G4b two-alt variants layout={lay}", [("A", 0, "0", "*", [5, 6]), ("C", 1, "1", None, []), ("G", 2, "2", "g", [3, 7])], bits=3, layout=lay))
+        ds.append(Decl(f"G4b five alternatives layout={lay}", [("L", 13, "0b001101", None, [15, 47, 61, 29, 45]), ("M", 44, "0b101100", None, []), ("X", 3, "3", "*", [11, 35])], bits=6, layout=lay))
     # G5: variant counts
     for n in [2, 3, 5, 16, 17, 32, 33, 40]:
         nm = names(n)
@@ -359,7 +375,7 @@ def replay(rec, root, env):
         for (name, lit, disp, alts) in dd["variants"]:
             val = ord(lit[2]) if lit.startswith("b'") else int(lit.replace("u8", "").replace("_", ""), 0)
             vs.append((name, val, lit, disp, alts))
-        positive_programs(res, [Decl(dd["tag"], vs, dd["bits"])], root, env, c["release"], "replay")
+        positive_programs(res, [Decl(dd["tag"], vs, dd["bits"], dd.get("layout", 0))], root, env, c["release"], "replay")
     elif c["kind"].startswith("negative"):
         negative_program(res, root, env, c["release"], only=c["name"] if c["kind"] == "negative" else None)
     r = res.done()
